@@ -7,6 +7,7 @@ import compcheck
 import c13check
 import c18check
 import c15check
+import c02check
 
 CHECKS = {}
 META = {}
@@ -138,3 +139,14 @@ META["C15"] = {
 }
 ENGINES.append({"name": "table-linearizability", "path": "tools/c15check.py", "serves_properties": ["C15"],
                 "kind_free_text": "harness/hashmap/verif_clht_test.go histories; spec/LinTrace.tla (TLC depth-first search, high-water acceptance); spec/RangeHist.tla"})
+
+CHECKS["C02"] = c02check.run
+META["C02"] = {
+    "engine": "cache-linearizability",
+    "text": "concurrent histories of Set/SetIfAbsent/GetIfPresent/GetEntry/Compute*/Invalidate/loader-backed Get on the real cache (evicting, table growing and shrinking) are explained by a total order that respects real time, with automatic removals taking effect at the instant OnAtomicDeletion reports them and every compute callback run exactly once on the value it replaces (LinTrace.tla, TLC search per history)",
+    "design_ref": "DESIGN.md section 6 (C02)",
+    "note": "per recorded history (2-6 clients, <= 8 keys); free-running with yields at the hook points or gate-scheduled (random / PCT)",
+    "technique": "TLA+ spec of the sequential map with linearisation points as silent steps (LinTrace.tla) checked by TLC depth-first search over recorded histories",
+}
+ENGINES.append({"name": "cache-linearizability", "path": "tools/c02check.py", "serves_properties": ["C02"],
+                "kind_free_text": "harness/otter/verif_lin_test.go histories; spec/LinTrace.tla"})
